@@ -68,6 +68,43 @@ theorem mail_line_exact (from? : Option Bytes) (u e : Bool) :
     mailLine from? u e = str "MAIL FROM:<" ++ from?.getD [] ++ str ">" ++
       (if u then str " SMTPUTF8" else []) ++ (if e then str " BODY=8BITMIME" else []) ++ CRLF := rfl
 
+/-- a byte string without CR and LF -/
+def noCrLf (a : Bytes) : Bool := a.all (fun b => b != 13 && b != 10)
+
+/-- `body ++ CRLF` is one line exactly when `body` has no CR and no LF. -/
+theorem single_line_iff (body : Bytes) : Dialogue.singleLine (body ++ CRLF) = noCrLf body := by
+  simp [Dialogue.singleLine, noCrLf, CRLF, List.reverse_append]
+
+/-- No command line contains CR or LF other than its terminator: for every reverse path and
+    recipient free of CR and LF (every accepted `Address` is — C16 `accepted_is_safe`), every
+    combination of the two extension flags, and every hello name free of CR and LF, the MAIL,
+    RCPT and EHLO lines are single lines.  (The converse direction is the two recorded findings
+    below: a hello name or a custom parameter keyword with CR LF is written as it is.) -/
+theorem command_lines_single (from? : Option Bytes) (a hello : Bytes) (u e : Bool)
+    (hf : noCrLf (from?.getD []) = true) (ha : noCrLf a = true) (hh : noCrLf hello = true) :
+    Dialogue.singleLine (mailLine from? u e) = true ∧ Dialogue.singleLine (rcptLine a) = true ∧
+      Dialogue.singleLine (ehloLine hello) = true := by
+  have k1 : noCrLf (str "MAIL FROM:<") = true := by decide
+  have k2 : noCrLf (str ">") = true := by decide
+  have k3 : noCrLf (str " SMTPUTF8") = true := by decide
+  have k4 : noCrLf (str " BODY=8BITMIME") = true := by decide
+  have k5 : noCrLf (str "RCPT TO:<") = true := by decide
+  have k6 : noCrLf [69, 72, 76, 79, 32] = true := by decide
+  refine ⟨?_, ?_, ?_⟩
+  · unfold mailLine
+    rw [single_line_iff]
+    cases u <;> cases e <;> simp_all [noCrLf, List.all_append]
+  · unfold rcptLine
+    rw [single_line_iff]
+    simp_all [noCrLf, List.all_append]
+  · unfold ehloLine
+    rw [single_line_iff]
+    simp_all [noCrLf]
+
+/-- non-vacuity: a UTF-8 reverse path with both flags, a quoted recipient, a hello name -/
+example : noCrLf (str "é@x.org") = true ∧ noCrLf (str "\"a b\"@x.org") = true ∧
+    Dialogue.singleLine (mailLine (some (str "é@x.org")) true true) = true := by decide
+
 /-- Extension parameter values are valid xtext: an RFC 3461 receiver decodes exactly the value
     that was given (all octets, including controls, `+`, `=`, space and DEL). -/
 theorem xtext_valid (v : Bytes) : XTextSpec.decode (XText.xtext v) = some v :=
